@@ -2,6 +2,7 @@ pub mod common;
 pub mod conformance;
 pub mod c01;
 pub mod c06;
+pub mod c08;
 pub mod c10;
 pub mod c11;
 pub mod c16;
@@ -17,6 +18,7 @@ pub fn dispatch(ctx: &Ctx) -> bool {
     match ctx.property.as_str() {
         "C01" => c01::run(ctx),
         "C06" => c06::run(ctx),
+        "C08" => c08::run(ctx),
         "C10" => c10::run(ctx),
         "C11" => c11::run(ctx),
         "C16" => c16::run(ctx),
